@@ -16,6 +16,15 @@ V2Names == {Table[k][1] : k \in 1..Len(Table)}
 V2Target(n) == Table[CHOOSE k \in 1..Len(Table) : Table[k][1] = n][2]
 MissingTargets == {n \in V2Names : V2Target(n) \notin DeclNames}
 TargetsExist == MissingTargets = {}
+\* what each EEMS 2.0 command MEANS (EEMS 2.0 manual: ORNEG is the falsest = minimum of its inputs, i.e. a fuzzy And; DIF is A - B; ...): the name table
+\* may be refactored, but a documented name must keep denoting the MPilot command with that meaning, or the translated model computes something else
+Meaning == << <<"READ", "EEMSRead">>, <<"CVTTOFUZZY", "CvtToFuzzy">>, <<"CVTTOFUZZYCURVE", "CvtToFuzzyCurve">>, <<"CVTTOFUZZYCAT", "CvtToFuzzyCat">>,
+              <<"MEANTOMID", "CvtToFuzzyMeanToMid">>, <<"COPYFIELD", "Copy">>, <<"NOT", "FuzzyNot">>, <<"OR", "FuzzyOr">>, <<"AND", "FuzzyAnd">>,
+              <<"ORNEG", "FuzzyAnd">>, <<"XOR", "FuzzyXOr">>, <<"SUM", "Sum">>, <<"MULT", "Multiply">>, <<"DIVIDE", "ADividedByB">>, <<"MIN", "Minimum">>,
+              <<"MAX", "Maximum">>, <<"MEAN", "Mean">>, <<"UNION", "FuzzyUnion">>, <<"DIF", "AMinusB">>, <<"SELECTEDUNION", "FuzzySelectedUnion">>,
+              <<"WTDUNION", "FuzzyWeightedUnion">>, <<"WTDMEAN", "WeightedMean">>, <<"WTDSUM", "WeightedSum">>,
+              <<"SCORERANGEBENEFIT", "ScoreRangeBenefit">>, <<"SCORERANGECOST", "ScoreRangeCost">> >>
+MeaningChanged == {Meaning[k][1] : k \in {k \in 1..Len(Meaning) : Meaning[k][1] \notin V2Names \/ V2Target(Meaning[k][1]) # Meaning[k][2]}}
 
 ArgVal(c, pn) == Args(c)[CHOOSE k \in 1..Len(Args(c)) : Args(c)[k][1] = pn][2]
 NameOf(v) == IF v[1] = "ref" THEN v[2] ELSE IF v[1] = "str" THEN (IF v[2] = "colb" THEN "b" ELSE "a") ELSE ""   \* the text of a field-name value (fixture columns a, b)
@@ -48,7 +57,7 @@ Init == /\ \E n \in V2Names \ MissingTargets, nf \in BOOLEAN, of \in BOOLEAN, na
 Apply == ~done /\ done' = TRUE /\ image' = Convert(v2) /\ UNCHANGED v2
 Next == Apply
 \* evaluated once (INIT InitMissing): tells the harness which names have no target
-InitMissing == v2 = <<>> /\ image = <<>> /\ done = TRUE /\ PrintT(<<"MISSING", SetToSeq(MissingTargets)>>)
+InitMissing == v2 = <<>> /\ image = <<>> /\ done = TRUE /\ PrintT(<<"MISSING", SetToSeq(MissingTargets)>>) /\ PrintT(<<"CHANGED", SetToSeq(MeaningChanged)>>)
 \* the image is an MPilot-style program over existing commands, with no output-file arguments left
 ImageIsV3 == done => \A i \in 1..Len(image) : CName(image[i]) \in DeclNames /\ ~(\E k \in 1..Len(Args(image[i])) : Args(image[i])[k][1] \in {"NewFieldName", "OutFileName"})
 \* converting an image changes nothing
